@@ -347,7 +347,27 @@ def run_snapshot(ctx, case):
         for (i, j), (a, b) in G.pairs(sp['types'], diagonal=False):
             if rng.random() < 0.7:
                 sp['om'][G.pk(a, b)] = {'t': 'ARR', 'w': (float(rng.uniform(0.2, 1.5)) * np.exp(-kgrid * float(rng.uniform(0.2, 1.0)))).tolist()}
-    s = G.build(sp)
+    if rng.random() < 0.12:
+        arr = {k: v for k, v in sp['om'].items() if v['t'] == 'ARR'}
+        sp = G.integer_grid(sp)
+        kgrid = R.grids(sp['L'], sp['dr'])[1]
+        for k in arr:
+            sp['om'][k] = {'t': 'ARR', 'w': (0.5 * np.exp(-kgrid * 3.0)).tolist()}
+    originals = []
+    s = G.build(sp, originals=originals)
+    # the user keeps the objects he assigned and goes on editing them (re-using one potential object for the next pair
+    # or System): the tables hold copies, so the System - and everything built from it - must not notice
+    for obj in originals:
+        for attr, val in (('epsilon', -9.0), ('alpha', 0.01), ('sigma', 3.3), ('rcut', 1.01), ('high_value', 1.0), ('length', 999), ('N', 999), ('l', 9.9),
+                          ('apply_hard_core', False), ('potential', np.ones(2))):
+            if hasattr(obj, attr):
+                try:
+                    setattr(obj, attr, val)
+                except Exception:
+                    pass
+        if isinstance(getattr(obj, 'value', None), np.ndarray):
+            obj.value[...] = -1.0
+    ctx.hook('isolation.users_objects_edited')
     before = digest(s)
     keep = copy.deepcopy(s)
     with np.errstate(all='ignore'):
